@@ -17,6 +17,28 @@ CHECKS = {
              '(theorems hold for every value fillnodata could return).',
         technique='Coq proof (list-sum lemmas + field/lra over Q) + in-Coq correspondence (vm_compute, exact rationals) with KernelModel.fit',
         design='5/C01'),
+    'C02': dict(
+        text='Theorems (Coq over Q, every block, mask, odd kernel): if ref = a*x + b on the jointly valid pixels then gain (b = 0), gain-offset '
+             '(OLS) and gain-blk-offset (with the block normalisation (a, b)) recover exactly (a, b) at every pixel, R2 = 1, and the corrected '
+             'value is a*src + b; every pixel of the processing window is written exactly once. Tie: kernel model vs KernelModel.fit on exactly '
+             'linear blocks (in Coq); real fusions whose reference is rewritten as a*x + b with x = the NaN-padded source down-sampled by the '
+             'pipeline\'s own call: every valid source pixel must equal a*source + b to 2e-5 (1e-3 gain-offset) for ratios incl. 1.7/2.5/4.3, '
+             'sub-pixel offsets, holes, kernels h != w, 1..40 blocks, threads {1,3}, per-band (a, b).',
+        note='partial: H_up_const / H_down_avg (GDAL) exercised, not proved; float32 rounding bounded by the tolerances; block normalisation '
+             'of an increasing affine relation = (a, b) is exercised (np.std / np.percentile).',
+        technique='Coq proof (kernel-sum algebra, field) + correspondence + tight location-exact end-to-end oracle',
+        design='5/C02'),
+    'C03': dict(
+        text='Theorems (Coq): a corrected pixel is valid only if the source pixel is, for ANY parameters (arbitrary resampling and fit); a valid '
+             'source pixel with finite parameters is valid; for positive data the source kernel sum at a jointly valid pixel is > 0 (finite gain); '
+             'every source pixel is written exactly once (C06); a valid pixel is lost by the encoding only on collision with nodata (C13); '
+             'positivity is necessary (refutation witness). Tie: kernel model vs KernelModel.fit on positive masked data (in Coq); real fusions: '
+             'dataset mask of the corrected image == dataset mask of the source, exactly, over geometries (x.5 / x.25 offsets over-sampled), '
+             'masks (holes, islands, nearly empty blocks), 3 models, 3 grids, 1..30 blocks, 3 up-sampling kernels, 6 output encodings.',
+        note='partial: the converse rests on GDAL validity rules (H_down_valid, H_up_local2). Known finding D13 (gain-offset degenerate window) '
+             'is reported as KNOWN-FINDING.',
+        technique='Coq proof (NaN propagation model, positivity of kernel sums) + correspondence + exact mask comparison end to end',
+        design='5/C03'),
     'C04': dict(
         text='Meta-theorems (Coq, every list of guarded traces, any number of blocks, every schedule): mutual exclusion on every shared '
              'dataset; a block executes only its own trace; write order and accumulation order are irrelevant for disjoint windows. '
@@ -158,6 +180,28 @@ CHECKS = {
              'array is given to the model as an integer origin.',
         technique='Coq proof (lia, induction over write sequences) + in-Coq correspondence with real file I/O',
         design='5/C20'),
+    'C17': dict(
+        text='Theorems (Coq): erosion with the (kw+2, kh+2) element and zero border = "every pixel of the kernel window grown by one is inside '
+             'the grid and set"; the partial mask at a source pixel holds exactly when the processing pixel it falls in and that whole window '
+             'are jointly valid and completely covered; subset of the source mask; strictly smaller (a pixel with no set pixel above is removed); '
+             'erosion reach = block overlap, so the mask is block independent. Tie: Kernel.Morph evaluated in Coq against '
+             '_full_coverage_mask on in-memory masks (input grid 1x/2x/4x finer); real fusions with mask_partial=True on aligned dyadic geometries, '
+             'both grids, one vs many blocks: dataset mask == independently computed characterisation, strict subset, block independent.',
+        note='partial: H_down_avg (coverage >= 1 iff all overlapping pixels valid) and nearest re-projection are GDAL oracles; aligned geometries '
+             'only; `joint` is the parameter mask (degenerate gain-offset windows give NaN parameters). D5 fixed (f438c79).',
+        technique='Coq proof (forallb over the structuring window) + in-Coq correspondence + exact mask oracle end to end',
+        design='5/C17'),
+    'C18': dict(
+        text='Theorems (Coq): auto resolves to the coarser grid, explicit choices kept; combine_profiles keeps size / CRS / transform of the input '
+             'profile for every configuration that does not name them; matched source bands are the selection in order (C15); per run '
+             '(regenerated): model, kernel shape and every effective model / block setting flow into the FUSE_* tags of both outputs. Tie: real '
+             'fusions with permuted, wavelength-tagged reference bands: geometry of both outputs, band count and order by content, every '
+             'effective setting in the tags, wavelength tags copied, compare(corrected, reference) pairs, the Gallina matcher on the written '
+             'metadata, processing-grid resolution in Coq; south-up storage of source / reference / both is bit-identical.',
+        note='partial: geo-placement and WarpedVRT (H_vrt) are GDAL; the fuse -> compare round trip is exercised, not proved in general. '
+             'Known finding D7 (colour-interpretation matches not recorded) is reported as KNOWN-FINDING.',
+        technique='Coq proof (resolution rule, profile merge) + regenerated tags plumbing + correspondence on written metadata',
+        design='5/C18'),
     'C19': dict(
         text='Finite theorems by computation on the click surface REGENERATED from the imported module on every run: every fuse / compare / '
              'stats option is a used named callback argument or a key of exactly one API configuration dictionary, every API key is an '
